@@ -160,6 +160,15 @@ class Ctx:
             self.queries += 1
             if v.status == smt.REFUTED and self.uncertain:
                 v = smt.Verdict(smt.UNDECIDED, v.backend, v.secs, detail="refuted on a path of unknown feasibility")
+        if v.status == smt.REFUTED and getattr(self, "model_replay", None) is not None and z is not False:
+            try:
+                from .core import concrete_replay
+                cr = concrete_replay(self, z)
+                if cr is not None:
+                    v.model = dict(v.model or {})
+                    v.model["counterexample_replay"] = cr
+            except Exception:
+                pass
         self.sites.append(Site(key, kind, text or str(z)[:200], v, self.path_index, self.where))
         if v.status != smt.PROVED and z is not False and z is not True:
             self.path_hyps.append(z)
